@@ -3,7 +3,7 @@
 From Coq Require Import NArith ZArith List Bool.
 Import ListNotations.
 Require Import UV.Gen.Consts UV.Mcount.Model UV.Mcount.Forest UV.Mcount.PlainStep UV.Mcount.PlainProofs
-  UV.Mcount.Restore UV.Mcount.SelectSpec UV.Mcount.Select UV.Mcount.Embed UV.Mcount.EmbedMore UV.Mcount.Check.
+  UV.Mcount.Restore UV.Mcount.SelectSpec UV.Mcount.Select UV.Mcount.Embed UV.Mcount.EmbedMore UV.Mcount.Check UV.Mcount.SelectSpec2 UV.Mcount.Select2.
 Local Open Scope N_scope.
 
 (* The filter state after a function returns equals the state before it was called - for EVERY
@@ -117,3 +117,27 @@ Theorem C05_no_switch_example :
                    true true 3 10 1024 [] PG).
 Proof. exact no_switch_example. Qed.
 Print Assumptions C05_no_switch_example.
+
+(* Documented semantics, stage 2: -F / -N / -C / -D / -t together with the trigger actions depth=N, time=T, size=Z and trace
+   (alone or combined with filter / notrace / caller on the same function), any trigger table with well-formed values, any
+   threshold, both instrumentation shapes (the -pg / fentry / PLT shape under [pg_guard], outside which the known
+   leak pg-reject-leak applies): the recorded stream equals the tree-recursive specification [sel2]. *)
+Theorem C05_matches_documented_filters_depth_time_triggers : forall tg szf fm hc gd thr ms sh,
+  0 < gd -> wf_tg tg -> sh = CYG \/ pg_guard tg -> forall f, all_timed f -> heights f <= ms ->
+  out (fst (exec (fcfg2 tg szf fm hc gd thr ms sh) (flat_forest f) (init, []))) =
+  flat_map (sel2 tg szf hc (x02 fm gd thr) 0) f.
+Proof. exact run_forest_sel2. Qed.
+Print Assumptions C05_matches_documented_filters_depth_time_triggers.
+
+(* non-vacuity: a table with filter+depth=+time=, notrace, and depth=+time= entries meets both hypotheses *)
+Theorem C05_trigger_table_example : wf_tg tg_example /\ pg_guard tg_example.
+Proof. exact tg_example_ok. Qed.
+Print Assumptions C05_trigger_table_example.
+
+(* ... and therefore independent of the instrumentation method inside that option class *)
+Theorem C05_method_independent_filters_triggers : forall tg szf fm hc gd thr ms f,
+  0 < gd -> wf_tg tg -> pg_guard tg -> all_timed f -> heights f <= ms ->
+  out (fst (exec (fcfg2 tg szf fm hc gd thr ms PG) (flat_forest f) (init, []))) =
+  out (fst (exec (fcfg2 tg szf fm hc gd thr ms CYG) (flat_forest f) (init, []))).
+Proof. exact method_independent_sel2. Qed.
+Print Assumptions C05_method_independent_filters_triggers.
